@@ -261,7 +261,7 @@ Section OneWorkflow.
       set (Ds := step_deps sid s).
       (* the parameters of the step row *)
       assert (Hp : exists dp, step_params pidf wid s = Some dp /\ load_kind tp wid dp = Some (s_kind s)).
-      { unfold step_params. destruct (s_kind s) as [|dp|c] eqn:Ek.
+      { unfold step_params. destruct (s_kind s) as [|dp|lp c|cls|cls|conns] eqn:Ek.
         - destruct (alookup "__size__" (s_out s)) as [pn|] eqn:El; [|discriminate].
           assert (Hm : mem pn names = true).
           { apply (forallb_mem _ Hmo). apply (alookup_In_snd _ _ _ El). }
@@ -272,7 +272,18 @@ Section OneWorkflow.
           { apply (forallb_mem _ Hmi). apply (alookup_In_snd _ _ _ El). }
           rewrite (pidf_mem pn Hm). eexists. split; [reflexivity|]. simpl.
           destruct (port_row_name pn Hm) as [p [Hp' _]]. rewrite Hp'. reflexivity.
-        - eexists. split; [reflexivity|]. simpl. rewrite comb_roundtrip. reflexivity. }
+        - eexists. split; [reflexivity|]. simpl. rewrite comb_roundtrip. reflexivity.
+        - eexists. split; reflexivity.
+        - destruct (alookup "__job__" (s_in s)) as [pn|] eqn:El; [|discriminate].
+          assert (Hm : mem pn names = true).
+          { apply (forallb_mem _ Hmi). apply (alookup_In_snd _ _ _ El). }
+          rewrite (pidf_mem pn Hm). eexists. split; [reflexivity|]. simpl.
+          destruct (port_row_name pn Hm) as [p [Hp' _]]. rewrite Hp'. reflexivity.
+        - destruct (alookup "__job__" (s_in s)) as [pn|] eqn:El; [|discriminate].
+          assert (Hm : mem pn names = true).
+          { apply (forallb_mem _ Hmi). apply (alookup_In_snd _ _ _ El). }
+          rewrite (pidf_mem pn Hm). eexists. split; [reflexivity|]. simpl.
+          destruct (port_row_name pn Hm) as [p [Hp' _]]. rewrite Hp'. reflexivity. }
       destruct Hp as [dp [Hdp Hlk]].
       (* its dependency rows go in without conflict *)
       assert (Hins : fold_left dep_insert (mkdeps sid true (s_in s) ++ mkdeps sid false (s_out s)) td = td ++ Ds).
@@ -386,7 +397,7 @@ Qed.
 (* the two known findings, on the model: a step using one port under two names loses one of them *)
 Definition twice_witness : pwf :=
   mkwf "wf" JNull [] [] [mkport "port0" "Port"]
-       [mkstep "/s" (KComb (PComb CDot "c0" ["a"] [] [] [])) 0%Z [("a", "port0")] [("o", "port0")]].
+       [mkstep "/s" (KComb false (PComb CDot "c0" ["a"] [] [] [])) 0%Z [("a", "port0")] [("o", "port0")]].
 
 Lemma twice_witness_loses :
   ok_db (mkwdb [] [] [] []) = true /\
